@@ -130,7 +130,12 @@ fn body() -> Check {
   ];
   let form = forms[ch(|c| c.index(forms.len()))];
   let no_key = matches!(form, Form::NoKeyStream | Form::SimpleStream);
-  let q = qos(true, History::KeepAll, false);
+  let consumer_form = !matches!(form, Form::AsyncWrite | Form::AsyncWaitAck | Form::SyncWaitAck);
+  // a third of the consumer runs is best effort: what is lost is lost, but what arrives must wake the application
+  let reliable = !consumer_form || ch(|c| c.chance(2, 3));
+  // a third of the with_key consumer runs has a second reader on the same topic in the same participant
+  let with_sibling = consumer_form && !no_key && ch(|c| c.chance(1, 3));
+  let q = qos(reliable, History::KeepAll, false);
   let dpw = new_participant(WNODE)?;
   let dpr = new_participant(RNODE)?;
   let kind = if no_key { TopicKind::NoKey } else { TopicKind::WithKey };
@@ -161,7 +166,12 @@ fn body() -> Check {
     Form::SimpleStream => Rd::S(sub.create_simple_datareader_no_key(&tr, None).map_err(|e| herr("reader", e))?),
     _ => Rd::K(sub.create_datareader_cdr(&tr, None).map_err(|e| herr("reader", e))?),
   };
-  e2::log(&format!("cfg form={form:?}"));
+  let sibling: Option<with_key::DataReader<Msg>> = if with_sibling {
+    Some(sub.create_datareader_cdr(&tr, None).map_err(|e| herr("reader", e))?)
+  } else {
+    None
+  };
+  e2::log(&format!("cfg form={form:?} reliable={reliable} sibling={with_sibling}"));
   e2::count(&format!("op.form_{form:?}"));
 
   // ---- real discovery until both sides are matched -----------------------------------------------
@@ -273,6 +283,21 @@ fn body() -> Check {
         (Rd::K(r), _) => rd_k = Some(leak(r)),
       }
       let mut stream = leak(stream);
+      // the sibling reader is consumed by a second parked task
+      let flag2 = Arc::new(WakeFlag {
+        woken: AtomicBool::new(true),
+        wakes: AtomicU64::new(0),
+      });
+      let mut got2: Vec<(u32, Vec<u8>)> = vec![];
+      let mut polls2 = 0u64;
+      let mut sib_stream: Leak<Option<ItemStream>> = leak(sibling.map(|r| {
+        let st: ItemStream = Box::pin(r.async_bare_sample_stream().map(|x| match x {
+          Ok(with_key::Sample::Value(m)) => Ok((m.k, m.v)),
+          Ok(with_key::Sample::Dispose(k)) => Ok((k, vec![])),
+          Err(e) => Err(format!("{e:?}")),
+        }));
+        st
+      }));
       // mio polls
       let poll06 = leak(mio_06::Poll::new().map_err(|e| herr("poll06", e))?);
       let mut poll08 = leak(mio_08::Poll::new().map_err(|e| herr("poll08", e))?);
@@ -353,6 +378,15 @@ fn body() -> Check {
           }
         }
       };
+      let mut sib_step = |force: bool, got2: &mut Vec<(u32, Vec<u8>)>, polls2: &mut u64| -> Check {
+        match sib_stream.as_mut() {
+          Some(st) => {
+            simcore::set_node(RNODE);
+            run_task_stream(st, &flag2, force, got2, polls2)
+          }
+          None => Ok(()),
+        }
+      };
       // ---- producer and consumer interleaved ------------------------------------------------------------
       for i in 0..n {
         if let Err(e) = write(i) {
@@ -363,6 +397,7 @@ fn body() -> Check {
         for _ in 0..steps {
           let wait = ch(|c| *c.pick(&[100_000u64, MS, 20 * MS, 300 * MS]));
           app_step(&mut got, &mut polls, false, wait)?;
+          sib_step(false, &mut got2, &mut polls2)?;
         }
       }
       e2::with(|st| {
@@ -370,42 +405,65 @@ fn body() -> Check {
         st.ctx.log("faults stop");
       });
       // ---- bounded liveness ---------------------------------------------------------------------------------
-      let deadline = simcore::now_ns() + 30 * SEC;
-      while got.len() < n && simcore::now_ns() < deadline {
+      let deadline = simcore::now_ns() + if reliable { 30 * SEC } else { 3 * SEC };
+      while (got.len() < n || (with_sibling && got2.len() < n)) && simcore::now_ns() < deadline {
         app_step(&mut got, &mut polls, false, 100 * MS)?;
+        sib_step(false, &mut got2, &mut polls2)?;
       }
       let wakes = flag.wakes.load(Ordering::SeqCst);
       e2::log(&format!("got {} of {n} in {polls} polls, {wakes} wakes", got.len()));
       if wakes >= 2 {
         e2::count("probe.task_woken_more_than_once");
       }
-      if got.len() < n {
-        let before = got.len();
-        // is it there for the taking?
-        app_step(&mut got, &mut polls, true, MS)?;
-        return Err(if got.len() > before {
-          v(
-            "C13/wake-up-lost",
-            format!(
-              "{form:?}: 30 s after the last write the parked application had {before} of {n} samples; an unconditional look found {} more waiting (wakes so far: {wakes})",
-              got.len() - before
-            ),
-          )
-        } else {
-          v(
+      // is there anything for the taking that the parked application was not told about?
+      let before = got.len();
+      app_step(&mut got, &mut polls, true, MS)?;
+      if got.len() > before {
+        return Err(v(
+          "C13/wake-up-lost",
+          format!(
+            "{form:?} (reliable={reliable}, sibling={with_sibling}): the parked application had {before} of {n} samples; an unconditional look found {} more waiting (wakes so far: {wakes})",
+            got.len() - before
+          ),
+        ));
+      }
+      let before2 = got2.len();
+      sib_step(true, &mut got2, &mut polls2)?;
+      if got2.len() > before2 {
+        return Err(v(
+          "C13/wake-up-lost",
+          format!(
+            "second reader on the topic (bare stream; the first one consumes through {form:?}, reliable={reliable}): its parked task had {before2} of {n} samples; an unconditional poll found {} more waiting (wakes so far: {})",
+            got2.len() - before2,
+            flag2.wakes.load(Ordering::SeqCst)
+          ),
+        ));
+      }
+      let mut streams = vec![("the reader", &got)];
+      if with_sibling {
+        streams.push(("the second reader", &got2));
+      }
+      for (who, g) in streams {
+        if reliable && g.len() < n {
+          return Err(v(
             "C13/sample-never-arrived",
-            format!("{form:?}: 30 s after the last write and the last fault only {before} of {n} samples have arrived at the reader"),
-          )
-        });
-      }
-      // content and order
-      for (i, g) in got.iter().enumerate().take(n) {
-        if g.1 != body_of(i) {
-          return Err(v("C13/sample-altered-or-out-of-order", format!("{form:?}: delivery #{i} is not sample #{i}")));
+            format!("{form:?}: 30 s after the last write and the last fault only {} of {n} samples have arrived at {who}", g.len()),
+          ));
         }
-      }
-      if got.len() > n {
-        return Err(v("C13/sample-delivered-twice", format!("{form:?}: {} deliveries for {n} samples", got.len())));
+        // content and order: what was written, each at most once, in order when reliable (the order of
+        // best-effort delivery under reordering is nobody's promise here)
+        let mut last: i64 = -1;
+        let mut seen = std::collections::BTreeSet::new();
+        for x in g.iter() {
+          let i = x.1.first().copied().unwrap_or(255) as usize;
+          if i >= n || x.1 != body_of(i) || !seen.insert(i) || (reliable && (i as i64) <= last) {
+            return Err(v(
+              "C13/sample-altered-or-out-of-order",
+              format!("{form:?}: {who} was handed a sample that is not the next one written (index byte {i}, after #{last})"),
+            ));
+          }
+          last = i as i64;
+        }
       }
       nontrivial = true;
       fp.u64(polls).u64(wakes);
